@@ -124,9 +124,9 @@ def gen_ops32(name, rnd):
     if name == 'fence':
         return [('k', rnd.randrange(-1, 18)), ('k', rnd.randrange(-1, 18))]
     if name in encsweep.A_NAMES:
-        return [R(), R(), R(), ('k', rnd.choice([0, 1, 0, 1, 2])), ('k', rnd.choice([0, 1, 0, 1, -1]))]
+        return [R(), R(), R(), ('k', rnd.choice([0, 1, 0, 1, 2, 3])), ('k', rnd.choice([0, 1, 0, 1, -1, 2, 3]))]
     if name == 'lr.w':
-        return [R(), R(), ('k', rnd.choice([0, 1, 0, 1, 2])), ('k', rnd.choice([0, 1]))]
+        return [R(), R(), ('k', rnd.choice([0, 1, 0, 1, 2])), ('k', rnd.choice([0, 1, 0, 1, 2, 3]))]
     return []
 
 
